@@ -687,6 +687,73 @@ def check_tree_errors(run, nroots, ops):
             return
 
 
+def check_two_trees(run, nroots, ops_a, roots_b, ops_b):
+    """the SAME Particle objects used in TWO event trees (B is a sub-event rooted at particles of A, or a differently
+    shaped tree rebuilt from the same particles): each Event's iteration / parent / children / level answers must depend
+    on THAT event only.  Queries are made on A before B exists, and on both after each step of B."""
+    pp = P()
+    nid = max([nroots] + [c + 1 for _, cs, _ in ops_a for c in cs] + [c + 1 for _, cs, _ in ops_b for c in cs] + [r + 1 for r in roots_b])
+    ps = [pp.Particle("nu_e", (0, 0, -i), (0, 0, 1), 1e9, interaction_type="cc", interaction_model=pp.Interaction)
+          for i in range(nid)]
+    inp = {"nroots": nroots, "ops_a": [[p, cs, b] for p, cs, b in ops_a], "roots_b": list(roots_b),
+           "ops_b": [[p, cs, b] for p, cs, b in ops_b]}
+
+    class View:                      # tree_state_bad identifies particles by position in `ps`; B has its own root ids
+        pass
+    ev_a = pp.Event(list(ps[:nroots]))
+    bad = None
+    try:
+        for par, cs, _ in ops_a:
+            ev_a.add_children(ps[par], [ps[c] for c in cs])
+        bad = tree_state_bad(ev_a, ps, nroots, ops_a)
+        where = "tree A before B exists"
+        if not bad:
+            ev_b = pp.Event([ps[r] for r in roots_b])
+            done = []
+            for k, (par, cs, _) in enumerate(ops_b):
+                ev_b.add_children(ps[par], [ps[c] for c in cs])
+                done.append((par, cs, False))
+                bad = two_tree_state(ev_b, ps, roots_b, done)
+                where = "tree B after its add_children call %d" % k
+                if bad:
+                    break
+                bad = tree_state_bad(ev_a, ps, nroots, ops_a)
+                where = "tree A after add_children call %d on tree B" % k
+                if bad:
+                    break
+    except Exception as e:      # noqa: BLE001
+        bad, where = "%s: %s" % (type(e).__name__, e), "building the trees"
+    if bad:
+        run.fail_input("two-trees", inp, observed="%s: %s" % (where, bad),
+                       what="two events sharing Particle objects influence each other (%s: %s)" % (where, bad))
+
+
+def two_tree_state(ev, ps, roots, ops_done):
+    """like tree_state_bad for an event whose roots are arbitrary particle ids"""
+    ident = {id(p): i for i, p in enumerate(ps)}
+    expect_parent, level = {}, {r: 0 for r in roots}
+    order = list(roots)
+    for par, cs, _ in ops_done:
+        for c in cs:
+            expect_parent[c] = par
+            level[c] = level[par] + 1
+            order.append(c)
+    if [ident[id(p)] for p in ev] != order:
+        return "iteration is not roots followed by the children in order of insertion"
+    for i in order:
+        par = ev.get_parent(ps[i])
+        if (None if par is None else ident[id(par)]) != expect_parent.get(i):
+            return "get_parent(%d) is %s, expected %s" % (i, None if par is None else ident[id(par)], expect_parent.get(i))
+        kids = [ident[id(k)] for k in ev.get_children(ps[i])]
+        if sorted(kids) != sorted(c for c, p in expect_parent.items() if p == i):
+            return "get_children(%d) wrong" % i
+    for L in range(max(level.values()) + 2):
+        got = sorted(ident[id(p)] for p in ev.get_from_level(L))
+        if got != sorted(i for i, l in level.items() if l == L):
+            return "get_from_level(%d) wrong" % L
+    return None
+
+
 def check_reassign(run, tname, model, steps):
     """one Particle / Interaction object READ, then `interaction.kind`, `particle.energy` or `particle.id` re-assigned,
     then read again: cross_section, total_cross_section, interaction_length, total_interaction_length must be those
@@ -798,6 +865,27 @@ def search(run, deep):
         nroots, ops = random_history(rng, rng.choice([1, 4, 9]), flaws=False)
         run.case(("oracle-tree-errors", nroots, str(ops)[:120]))
         check_tree_errors(run, nroots, ops)
+    # the same particles in two trees
+    for i in range(200 if deep else 20):
+        nroots, ops_a = random_history(rng, rng.choice([5, 9, 14]), flaws=False)
+        ops_a = [(p, cs, False) for p, cs, _ in ops_a if cs]
+        members = list(range(nroots)) + [c for _, cs, _ in ops_a for c in cs]
+        kids_a = [c for _, cs, _ in ops_a for c in cs]
+        if i % 2 == 0 and kids_a:
+            # B = sub-event rooted at a child of A, reusing other particles of A as its descendants (other shape)
+            roots_b = [rng.choice(kids_a)]
+        else:
+            roots_b = rng.sample(members, min(len(members), rng.randint(1, 2)))
+        rest = [m for m in members if m not in roots_b]
+        rng.shuffle(rest)
+        ops_b, present = [], list(roots_b)
+        while rest:
+            k = min(len(rest), rng.randint(1, 3))
+            cs, rest = rest[:k], rest[k:]
+            ops_b.append((rng.choice(present), cs, False))
+            present += cs
+        run.case(("oracle-two-trees", nroots, str(ops_a)[:100], str(ops_b)[:100]))
+        check_two_trees(run, nroots, ops_a, roots_b, ops_b)
     # queries interleaved with add_children
     for i in range(300 if deep else 30):
         nroots, ops = random_history(rng, rng.choice([4, 8, 14, 22]), flaws=False)
@@ -880,6 +968,9 @@ def replay(run, data):
             check_interaction(run, c)
         finally:
             me.Tape = orig
+    elif k == "two-trees":
+        check_two_trees(run, i["nroots"], [(p, cs, b) for p, cs, b in i["ops_a"]], i["roots_b"],
+                        [(p, cs, b) for p, cs, b in i["ops_b"]])
     elif k == "tree-errors":
         check_tree_errors(run, i["nroots"], [(p, cs, b) for p, cs, b in i["ops"]])
     elif k == "tree-interleaved":
